@@ -27,7 +27,8 @@ fn hex(b: &[u8]) -> String {
 }
 
 fn unhex(s: &str) -> Vec<u8> {
-    let s = s.trim();
+    // first line only: the in-flight file is overwritten in place
+    let s = s.lines().next().unwrap_or("").trim();
     (0..s.len() / 2)
         .map(|i| u8::from_str_radix(&s[2 * i..2 * i + 2], 16).unwrap())
         .collect()
@@ -61,6 +62,7 @@ fn main() {
             run_check(&prop, &tier)
         }
         "worker" => worker(&args[2..]),
+        "sweep" => props::sweep_worker(&args[2..]),
         "replay" => replay_file(Path::new(&args[2]), true),
         "replay-bytes" => replay_bytes(&args[2..]),
         "list" => {
@@ -270,6 +272,28 @@ fn write_replay(
 /// Returns 1 (and prints a VIOLATION line) if the case violates its property
 fn replay_file(path: &Path, verbose: bool) -> i32 {
     let v: Value = serde_json::from_slice(&fs::read(path).expect("replay file")).expect("json");
+    if v["crash"].as_bool() == Some(true) && std::env::var("VERIF_NO_ISOLATE").is_err() {
+        // the case is known to kill the process: run it in a child
+        let st = Command::new(std::env::current_exe().unwrap())
+            .args(["replay", path.to_str().unwrap()])
+            .env("VERIF_NO_ISOLATE", "1")
+            .stderr(Stdio::null())
+            .status()
+            .unwrap();
+        return match st.code() {
+            Some(0) => 0,
+            Some(1) => 1,
+            other => {
+                println!("  process died while executing this case ({:?})", other);
+                println!(
+                    "VIOLATION property={} replay={}",
+                    v["property"].as_str().unwrap_or("?"),
+                    path.display()
+                );
+                1
+            }
+        };
+    }
     let prop = std::env::var("VERIF_REPLAY_PROP")
         .unwrap_or_else(|_| v["property"].as_str().unwrap().to_string());
     let engine = v["engine"].as_str().unwrap().to_string();
@@ -554,6 +578,14 @@ fn run_check(prop: &str, tier: &str) -> i32 {
         }
     };
     let thorough = tier == "thorough";
+    // replay files of earlier runs of this property are stale
+    if let Ok(rd) = fs::read_dir(Path::new(VERIF).join("evidence/replays")) {
+        for e in rd.flatten() {
+            if e.file_name().to_string_lossy().starts_with(&format!("{}-", prop)) {
+                let _ = fs::remove_file(e.path());
+            }
+        }
+    }
     let deadline = t0 + Duration::from_secs(if thorough { 4 * 3600 } else { 1500 });
     let mut total = LegResult::new();
     let mut legs_desc = Vec::new();
@@ -623,6 +655,13 @@ fn run_check(prop: &str, tier: &str) -> i32 {
             println!("VIOLATION property={} replay={}", prop, path);
         }
         return 1;
+    }
+    if total.nt.len() < spec.min_nontrivial {
+        total.inconclusive.push(format!(
+            "only {} distinct non-trivial cases were explored (minimum {}): the run cannot vouch for the property",
+            total.nt.len(),
+            spec.min_nontrivial
+        ));
     }
     if !total.inconclusive.is_empty() {
         for m in &total.inconclusive {
